@@ -3307,4 +3307,41 @@ theorem iofarr_get (A : ℤ → ℤ) (n i : ℤ) : (0 ≤ i ∧ i < n) → iget 
 
 /-! uninterpreted in specs.py, NO schema emitted: `arrsum`, `nbrs`, `evar`, `bdegl`, `bdegr`, `navail_p`. -/
 
+
+/-! # Eleventh batch: row events and `rowsfrom` -/
+
+/-- one `write()` of a whole row: (template id, clause) -/
+def evrow (tid : ℤ) (c : ISeq) : ISeq := tid :: 0 :: c
+
+/-- `evrow(tid, c) != evcomment` -/
+theorem evrow_ne_comment (tid : ℤ) (c : ISeq) : evrow tid c ≠ evcomment := by
+  simp [evrow, evcomment]
+
+section Rows
+
+-- writer `w`: the trace after the events of row `i` were appended: an ARBITRARY function
+variable (rowapp : ℤ → CSeq → ℤ → CSeq)
+
+def rowsfromN (w : ℤ) (T : CSeq) : ℕ → CSeq
+  | 0 => T
+  | n + 1 => rowapp w (rowsfromN w T n) (n : ℤ)
+
+/-- rows `0..t-1` appended to a trace, one after the other -/
+def rowsfrom (w : ℤ) (T : CSeq) (t : ℤ) : CSeq := rowsfromN rowapp w T t.toNat
+
+/-- `t == 0 -> rowsfrom(w, T, t) == T` -/
+theorem rowsfrom_zero (w : ℤ) (T : CSeq) (t : ℤ) : t = 0 → rowsfrom rowapp w T t = T := by
+  rintro rfl; rfl
+
+/-- `t >= 0 -> rowsfrom(w, T, t + 1) == rowapp(w, rowsfrom(w, T, t), t)` -/
+theorem rowsfrom_succ (w : ℤ) (T : CSeq) (t : ℤ) :
+    t ≥ 0 → rowsfrom rowapp w T (t + 1) = rowapp w (rowsfrom rowapp w T t) t := by
+  intro h
+  have h1 : (t + 1).toNat = t.toNat + 1 := by omega
+  have h2 : ((t.toNat : ℕ) : ℤ) = t := by omega
+  unfold rowsfrom
+  rw [h1, rowsfromN, h2]
+
+end Rows
+
 end CnfSem
